@@ -88,8 +88,7 @@ def task(t):
                     wrong = z3.Not(T.zabs(r.term - (Tt * 2 + 1)) <= T.Q(tol.K64 * tol.U) * (T.zabs(Tt) + 1))
                     res, _ = sv.check(hyp + [wrong])
                     R.vacuity.append("%s canary (wrong spec 2T+1): %s" % (pair, res))
-                    if res != "sat":
-                        R.inconclusive.append("%s: canary not refuted" % pair)
+                    E.canary_verdict(R, sv, pair, res, [box] + th.cons + o.pc, [f for _, f in th.side] if be == "dec" else [])
             # exactness when the units are equal
             if ua == ub:
                 th = T.TUf(be)
